@@ -344,6 +344,56 @@ def alias_dump_case(rng, res):
                                   "traditional": outs[False], "dsse": outs[True]})
 
 
+UNENCODABLE = [("float_in_byproducts", {"byproducts": {"return-value": 0, "elapsed": 1.5}}),
+               ("float_in_environment", {"environment": {"load": 0.25}}),
+               ("name_not_utf8_in_products", {"products": {"caf\udce9.txt": {"sha256": "ab" * 32}}}),
+               ("name_not_utf8_in_materials", {"materials": {"r\udce9sum\udce9": {"sha256": "cd" * 32}}}),
+               ("float_in_command_list", {"command": ["sleep", 0.5]})]
+
+
+def unencodable_content_case(res, no):
+    """Link content that canonical JSON cannot express (a number that is not an integer, a file name that is not
+    UTF-8 and reaches Python as lone surrogates): constructed, wrapped, signed, written, loaded and checked through the
+    public classes, once per format. How far it gets, and how it ends, is the same for both formats."""
+    import tempfile, shutil
+    from in_toto.models.link import Link
+    from in_toto.models.metadata import Metadata, Metablock, Envelope
+    label, extra = UNENCODABLE[no % len(UNENCODABLE)]
+    k = W.pool()[(no // len(UNENCODABLE)) % len(W.pool())]
+    outs = {}
+    for dsse in (False, True):
+        d = tempfile.mkdtemp(prefix="verif-c14u-")
+        stage = "construct"
+        try:
+            kw = dict({"name": "st", "materials": {}, "products": {}, "byproducts": {}, "environment": {}, "command": []}, **extra)
+            link = Link(**kw)
+            stage = "wrap"
+            md = Envelope.from_signable(link) if dsse else Metablock(signed=link)
+            stage = "sign"
+            md.create_signature(k.signer)
+            stage = "dump"
+            path = os.path.join(d, "st.%s.link" % k.keyid[:8])
+            md.dump(path)
+            stage = "load"
+            md2 = Metadata.load(path)
+            stage = "verify"
+            from securesystemslib.signer import Key
+            md2.verify_signature(Key.from_dict(k.keyid, {x: v for x, v in k.pub.items() if x != "keyid"}))
+            outs[dsse] = {"ends": "verified"}
+        except Exception as e:  # pylint: disable=broad-except
+            outs[dsse] = {"ends": "refused"}
+            outs[dsse + 2] = {"stage": stage, "err": W.exc_class(e)}
+        finally:
+            shutil.rmtree(d, ignore_errors=True)
+    case = {"op": "unencodable_content", "content": label, "no": no, "key": k.kind}
+    same = outs[False] == outs[True]
+    res.case(dict(case, traditional=outs[False], dsse=outs[True], detail={"traditional": outs.get(2), "dsse": outs.get(3)}), True, same, sample_cap=1)
+    res.count("unencodable_content")
+    if not same:
+        res.fail("oracle", case, {"why": "content that canonical JSON cannot express is handled differently by the two formats",
+                                  "traditional": outs[False], "dsse": outs[True], "detail": {"traditional": outs.get(2), "dsse": outs.get(3)}})
+
+
 FAMILIES = ["c02", "c05", "c06", "c07", "c08", "c16"]
 
 
@@ -355,6 +405,7 @@ def shard(seed, idx, n, tier):
     if idx % 2 == 0:
         one_case(rng, res, "illformed")
     alias_dump_case(rng, res)
+    unencodable_content_case(res, idx)
     for _ in range(max(1, n // 4)):
         lib_roundtrip(rng, res)
         foreign_link_case(rng, res)
@@ -373,6 +424,10 @@ def replay(case):
     if case.get("op") == "history":
         from harness.props import c09
         return c09.replay(case)
+    if case.get("op") == "unencodable_content":
+        res = core.Result()
+        unencodable_content_case(res, case["no"])
+        return {"failures": res.failures, "samples": res.samples}
     if case.get("op") == "lib_roundtrip":
         res = core.Result()
         lib_roundtrip(random.Random(0), res)
